@@ -406,6 +406,15 @@ def threshold_histories(tier, seed):
         ops.append({"op": "write", "p": sp(["zz"]), "off": 100, "runs": f.runs(rng, 64 * each), "heavy": True})
         ops.append({"op": "reopen", "mode": "strict", "heavy": True})
         out.append({"id": f"minifattail_v{ver}", "ver": ver, "heavy": "marked", "ops": ops})
+        # (b3) the same with the file closed and reopened between the release of the tail and the new growth: what the
+        #      reopened object knows about the MiniFAT chain and the container comes from the image (trimmed MiniFAT,
+        #      untrimmed chains)
+        ops2 = []
+        for o in ops:
+            ops2.append(dict(o))
+            if o["op"] == "remove_stream" and o["p"]["t"] == [names[-3]]:
+                ops2.append({"op": "reopen", "mode": "strict" if ver == 3 else "permissive", "heavy": True})
+        out.append({"id": f"minifattail_reopened_v{ver}", "ver": ver, "heavy": "marked", "ops": ops2})
         # (c) FAT growth: V3 128 entries per FAT sector (64 KiB), V4 1024 (4 MiB)
         if ver == 3 or tier == "thorough":
             f = Fill()
